@@ -402,10 +402,11 @@ class Text(Input):
                     else:
                         id = np.nan
 
-                    # Lookup previous locationInfo
-                    currLat = np.nan
-                    currLon = np.nan
-                    currElev = np.nan
+                    # Lookup previous locationInfo. The default 0 is for a file without that column; a
+                    # missing value (-999, NA, nan) in the column is a missing coordinate, as in NetCDF files
+                    currLat = 0
+                    currLon = 0
+                    currElev = 0
                     if "lat" in indices:
                         currLat = self._clean(row[indices["lat"]])
                     if "lon" in indices:
@@ -424,12 +425,6 @@ class Text(Input):
                                 verif.util.warning("Conflicting lat/lon/elev information: (%f,%f,%f) does not match (%f,%f,%f)" % (currLat, currLon, currElev, lat, lon, elev))
                                 shownConflictingWarning = True
                     else:
-                        if np.isnan(currLat):
-                            currLat = 0
-                        if np.isnan(currLon):
-                            currLon = 0
-                        if np.isnan(currElev):
-                            currElev = 0
                         location = verif.location.Location(id, currLat, currLon, currElev)
                         self._locations.add(location)
                         locationInfo[id] = location
